@@ -40,6 +40,7 @@ logger_invalid = logging.getLogger(__name__ + ".invalid")
 
 import cgi
 
+from copy import deepcopy
 from itertools import chain
 
 import spyne.const.xml as ns
@@ -156,8 +157,11 @@ def resolve_hrefs(element, xmlids, _path=()):
             # copies the attributes
             [e.set(k, v) for k, v in resolved_element.items()]
 
-            # copies the children
-            [e.append(child) for child in resolved_element.getchildren()]
+            # copies the children. appending them as they are would take them
+            # away from the referenced element, which can be the target of
+            # other references, or an accessor itself.
+            [e.append(deepcopy(child))
+                                   for child in resolved_element.getchildren()]
 
             # copies the text
             e.text = resolved_element.text
